@@ -39,9 +39,6 @@ func decodeOperands(instr *InstrMeta, idata ProgramCode, bitmask Bitmask) {
 	instr.Src = [2]uint8{0xFF, 0xFF}
 
 	instrCategory := opcodeInfoTable[instr.Opcode].Category
-	if instrCategory != InstrCatNoArg && int(pc)+1 >= len(idata) {
-		return
-	}
 
 	switch instrCategory {
 	case InstrCatNoArg:
@@ -49,19 +46,14 @@ func decodeOperands(instr *InstrMeta, idata ProgramCode, bitmask Bitmask) {
 
 	case InstrCatOneImm:
 		// 10 (ecalli): Imm[0] = callID
-		if skipLen < 1 {
-			return
-		}
 		if callID, err := decodeOneImmediate(idata, pc, skipLen); err == nil {
 			instr.Imm[0] = uint64(callID)
 		}
 
 	case InstrCatOneRegExtImm:
 		// 20 (load_imm_64): Dst = rA, Imm[0] = imm64
-		instr.Dst = min(12, idata[pc+1]%16)
-		if int(pc+10) <= len(idata) {
-			instr.Imm[0] = binary.LittleEndian.Uint64(idata[pc+2 : pc+10])
-		}
+		instr.Dst = min(12, codeAt(idata, pc+1)%16)
+		instr.Imm[0] = binary.LittleEndian.Uint64(codeSlice(idata, pc+2, pc+10))
 
 	case InstrCatTwoImm:
 		// 30-33: Imm[0] = addr (vX), Imm[1] = val (vY)
